@@ -235,9 +235,11 @@ class SRC:
         calloutparsers.Xcallouts.Xcallouts module if it's there.
         (X = creator ID in lower case)
         """
+        name = self.creatorID.lower() + "callouts"
+        calloutParserMod = "calloutparsers." + name + "." + name
+        # Only a failing import marks the module as missing; a failure while
+        # describing one procedure must not hide the module from later ones.
         try:
-            name = self.creatorID.lower() + "callouts"
-            calloutParserMod = "calloutparsers." + name + "." + name
             if calloutParserMod in calloutParsers:
                 cls = calloutParsers[calloutParserMod]
                 if cls is None:
@@ -246,12 +248,15 @@ class SRC:
             else:
                 cls = importlib.import_module(calloutParserMod)
                 calloutParsers[calloutParserMod] = cls
+        except Exception:
+            calloutParsers[calloutParserMod] = None
+            return
 
+        try:
             desc = cls.getMaintProcDesc(procName)
             if desc:
                 out["Description"] = json.loads(desc)
-        except:
-            calloutParsers[calloutParserMod] = None
+        except Exception:
             pass
 
     def getCallouts(self, out: OrderedDict, config: Config):
